@@ -283,14 +283,21 @@ func realParseBatch(argvs [][]string) []string {
 
 func canonParse(m map[string]any) string {
 	if e, isErr := m["err"]; isErr {
-		msg, _ := e.(string)
+		// The TEXT of an error message is not an observation: the class is an advisory statistic derived from the
+		// current wording (`other` if it is not recognised), the message travels along only so that the driver can
+		// check that the offending argument is mentioned in it.
+		msg, isStr := e.(string)
+		if !isStr {
+			msg = fmt.Sprint(e)
+		}
+		class := "other"
 		for _, p := range [][2]string{{": no such argument", "nosuch"}, {": needs an argument", "needsarg"}, {": needs two argument", "needstwo"},
 			{": takes no argument", "takesno"}, {": should be key=value", "keyvalue"}} {
 			if strings.HasSuffix(msg, p[0]) {
-				return "err:" + p[1] + ":" + hx(strings.TrimSuffix(msg, p[0]))
+				class = p[1]
 			}
 		}
-		return "err:other:" + hx(fmt.Sprint(e))
+		return "err:" + class + ":" + hx(msg)
 	}
 	ok := m["ok"].(map[string]any)
 	var rest []string
